@@ -32,6 +32,7 @@ const (
 	kfNoState = "repair-no-candidate-state" // F6
 	kfSigbus  = "repair-scanner-reads-past-eof"
 	kfEmpty   = "zero-length-file"
+	kfWakeup  = "repair-scanner-lost-wakeup"
 	pageSize  = 4096
 )
 
@@ -307,7 +308,7 @@ func newC05env(t *testing.T, rec *ev.Rec, dir string) *c05env {
 	e := &c05env{t: t, rec: rec, imgDir: filepath.Join(dir, "img"), known: map[string]kf.Entry{}, knownHit: map[string]bool{}}
 	os.MkdirAll(e.imgDir, 0o755)
 	os.Chdir(e.imgDir)
-	for _, k := range []string{kfNoState, kfSigbus, kfEmpty} {
+	for _, k := range []string{kfNoState, kfSigbus, kfEmpty, kfWakeup} {
 		if en, ok := kf.Known("C05", k); ok {
 			e.known[k] = en
 		}
@@ -562,32 +563,39 @@ func (e *c05env) run(bf *builtFile, specs []imgSpec, nworkers int) {
 	jb, _ := json.Marshal(runningFile{Key: bf.Key, Data: bf.Data, States: bf.States, ZeroLen: bf.zeroLen, Garbage: bf.garbage})
 	os.WriteFile(running, jb, 0o644)
 	defer os.Remove(running)
-	type slot struct {
-		start atomic.Int64 // unix nanos of the image being evaluated, 0 = idle
-		spec  atomic.Pointer[imgSpec]
-	}
-	slots := make([]slot, nworkers)
 	ch := make(chan imgSpec, 256)
 	var wg sync.WaitGroup
-	done := make(chan struct{})
 	for w := 0; w < nworkers; w++ {
 		wg.Add(1)
 		go func(w int) {
 			defer wg.Done()
-			defer ownGoroutine()()
-			file := filepath.Join(e.imgDir, fmt.Sprintf("w%d.db", w))
+			gen := 0 // bumped when an evaluation had to be abandoned (it may still hold its file)
 			cur := rt.ReplayOut(fmt.Sprintf("c05_inflight_w%d.json", w))
 			defer os.Remove(cur)
+			timer := time.NewTimer(time.Hour)
+			defer timer.Stop()
 			for sp := range ch {
 				sp := sp
 				img := bf.image(sp.x, sp.kind, sp.variant)
 				os.WriteFile(cur, fmt.Appendf(nil, `{"property":"C05","running":"c05_running.json","file":%q,"x":%d,"kind":%d,"variant":%d}`,
 					bf.Key, sp.x, sp.kind, sp.variant), 0o644)
+				file := filepath.Join(e.imgDir, fmt.Sprintf("w%d_%d.db", w, gen))
+				// the evaluation runs in a goroutine of its own so that one
+				// that never returns can be examined and left behind
+				out := make(chan evalResult, 1)
 				e.mapLock.RLock()
-				slots[w].spec.Store(&sp)
-				slots[w].start.Store(time.Now().UnixNano())
-				res := e.eval(file, img, sp.x, sp.kind, bf.States)
-				slots[w].start.Store(0)
+				go func() {
+					defer ownGoroutine()()
+					out <- e.eval(file, img, sp.x, sp.kind, bf.States)
+				}()
+				timer.Reset(hangLimit)
+				var res evalResult
+				select {
+				case res = <-out:
+				case <-timer.C:
+					res = e.hang(bf, sp, img)
+					gen++
+				}
 				e.mapLock.RUnlock()
 				e.record(bf, sp, img, res)
 				if e.evals.Add(1)%300 == 0 {
@@ -598,52 +606,71 @@ func (e *c05env) run(bf *builtFile, specs []imgSpec, nworkers int) {
 			}
 		}(w)
 	}
-	go func() { // supervisor
-		tick := time.NewTicker(2 * time.Second)
-		defer tick.Stop()
-		for {
-			select {
-			case <-done:
-				return
-			case <-tick.C:
-				for w := range slots {
-					st := slots[w].start.Load()
-					if st != 0 && time.Since(time.Unix(0, st)) > hangLimit {
-						e.hang(bf, *slots[w].spec.Load())
-					}
-				}
-			}
-		}
-	}()
 	for _, sp := range specs {
 		ch <- sp
 	}
 	close(ch)
 	wg.Wait()
-	close(done)
 	e.mapLock.Lock()
 	unmapUnder(e.imgDir)
 	e.mapLock.Unlock()
 }
 
-// hang: an image did not finish within the (generous) limit. Try it once
-// more; only a reproduced hang is a violation, otherwise the run is
-// inconclusive. Either way this process cannot continue (a goroutine is stuck).
-func (e *c05env) hang(bf *builtFile, sp imgSpec) {
-	img := bf.image(sp.x, sp.kind, sp.variant)
+// lostWakeup recognises, in a dump of all goroutine stacks, a Repair that can
+// never return: its caller is parked in scanner.getUpTo (sync.Cond.Wait) and
+// the scanner goroutine it started (the only one that would signal) is gone.
+func lostWakeup(stacks string) bool {
+	blocks := strings.Split(stacks, "\n\n")
+	for _, b := range blocks {
+		if !strings.Contains(b, "db19.(*scanner).getUpTo") || !strings.Contains(b, "[sync.Cond.Wait") {
+			continue
+		}
+		var id int
+		if _, err := fmt.Sscanf(b, "goroutine %d ", &id); err != nil {
+			continue
+		}
+		alive := false
+		for _, o := range blocks {
+			if strings.Contains(o, "db19.(*scanner).scanner(") && strings.Contains(o, fmt.Sprintf("in goroutine %d\n", id)) {
+				alive = true
+			}
+		}
+		if !alive && (strings.Contains(b, "minutes]") || hangLimit < time.Minute) {
+			return true
+		}
+	}
+	return false
+}
+
+// hang: an image did not finish within the (generous) limit. All goroutine
+// stacks are taken first. If they prove that the evaluation can never finish
+// (lostWakeup) that is a violation by itself - or, with the known-findings
+// entry, an excluded case: the stuck goroutine is left behind and the
+// enumeration goes on. Otherwise the image is tried once more; only a
+// reproduced hang is a violation, else the run is inconclusive (and cannot
+// continue: something of unknown state is still running).
+func (e *c05env) hang(bf *builtFile, sp imgSpec, img []byte) (res evalResult) {
+	var sb bytes.Buffer
+	pprof.Lookup("goroutine").WriteTo(&sb, 2)
+	stacks := sb.String()
+	fmt.Fprintf(os.Stderr, "VERIF-HANG property=C05 image %s x=%d tail=%s: no result within %v; goroutines:\n%s\n", bf.Key, sp.x, tailNames[sp.kind], hangLimit, stacks)
+	if d := os.Getenv("VERIF_C05_HANGDUMP"); d != "" { // development aid: keep the stacks outside the driver's scratch dir
+		os.WriteFile(filepath.Join(d, fmt.Sprintf("hang_%d_x%d_%s.txt", os.Getpid(), sp.x, tailNames[sp.kind])), []byte(stacks), 0o644)
+	}
+	if lostWakeup(stacks) {
+		res.labels = []string{"repair_never_returns_lost_wakeup"}
+		if _, ok := e.known[kfWakeup]; ok {
+			res.excluded = kfWakeup
+			return res
+		}
+		os.WriteFile(rt.ReplayOut(fmt.Sprintf("c05_hang_goroutines_x%d_%s.txt", sp.x, tailNames[sp.kind])), []byte(stacks), 0o644)
+		res.fail = "Repair never returns: the caller waits in scanner.getUpTo (sync.Cond.Wait) and its scanner goroutine has exited " +
+			"(not deterministic: the stacks are in c05_hang_goroutines_*.txt next to this file)"
+		return res
+	}
 	f := failure{File: bf.Key, X: sp.x, Tail: tailNames[sp.kind], Why: "no result within " + hangLimit.String(),
 		Image: base64.StdEncoding.EncodeToString(img), States: bf.States}
 	p := e.artefact(f, "c05_hang.json")
-	// where is it stuck? (all goroutine stacks, before anything else runs)
-	fmt.Fprintf(os.Stderr, "VERIF-HANG property=C05 image %s x=%d tail=%s: no result within %v; goroutines:\n", bf.Key, sp.x, tailNames[sp.kind], hangLimit)
-	pprof.Lookup("goroutine").WriteTo(os.Stderr, 2)
-	if d := os.Getenv("VERIF_C05_HANGDUMP"); d != "" { // development aid: keep the stacks outside the driver's scratch dir
-		if df, err := os.Create(filepath.Join(d, fmt.Sprintf("hang_%d_x%d_%s.txt", os.Getpid(), sp.x, tailNames[sp.kind]))); err == nil {
-			fmt.Fprintf(df, "image %s x=%d tail=%s\n", bf.Key, sp.x, tailNames[sp.kind])
-			pprof.Lookup("goroutine").WriteTo(df, 2)
-			df.Close()
-		}
-	}
 	again := make(chan evalResult, 1)
 	go func() {
 		defer ownGoroutine()()
@@ -662,6 +689,7 @@ func (e *c05env) hang(bf *builtFile, sp imgSpec) {
 		e.rec.Write()
 		os.Exit(1)
 	}
+	return res
 }
 
 func (e *c05env) record(bf *builtFile, sp imgSpec, img []byte, res evalResult) {
